@@ -1,2 +1,180 @@
-// Package c13 decides C13 (see DESIGN.md section 4). Not built yet.
+// Package c13 decides C13 (JavaScript-backed / simplified standard-library
+// replacements equal the Go originals).
+//
+// Stateful part: spec/SyncPrims.tla (sequential specifications of Mutex,
+// RWMutex, WaitGroup, Once, Map, Pool with outcomes ok | panic | would-block |
+// fatal) and spec/Atomic.tla (atomic cells with wrap-around from Bits.tla); TLC
+// enumerates ALL histories over the configured alphabets with the predicted
+// outcome of every step (SyncPrimsScen.tla, AtomicScen.tla) and checks the
+// specifications' own invariants.  Every history is replayed on
+// github.com/gopherjs/gopherjs/nosync (native Go and compiled by GopherJS, under
+// Node) resp. on sync/atomic compiled by GopherJS; the guard replays it on the
+// host's package sync (blocking observed on the real scheduler, fatal errors
+// observed in child processes) resp. on native sync/atomic.
+//
+// Function part: math/bits (BitsFnScen.tla over Bits.tla) and math on the
+// dyadic grid (FloatGrid.tla, FloatGridScen.tla): TLC enumerates argument
+// tuples with exact results; programs print results as bit patterns.
+//
+// Outside the specification (labelled as such in the evidence): a seeded
+// random-bit-pattern differential run GopherJS vs native of the overridden
+// math, math/bits and unicode functions.
 package c13
+
+import (
+	"encoding/json"
+	"fmt"
+	"os"
+	"sort"
+	"strings"
+	"sync"
+
+	"verif/core"
+	"verif/gjs"
+	"verif/reg"
+	"verif/tlcx"
+)
+
+func init() { reg.Register("C13", "model_checking", Run) }
+
+// failure is one rejected observation; failures are grouped before reporting.
+type failure struct {
+	group   string // reporting group (one Case per group)
+	rank    int    // the member with the lowest rank represents the group (e.g. shortest history)
+	keys    []string
+	summary string
+	files   map[string]string
+}
+
+type collector struct {
+	mu       sync.Mutex
+	fails    map[string]*failure
+	counts   map[string]int
+	discards int
+	discNote []string
+}
+
+func newCollector() *collector {
+	return &collector{fails: map[string]*failure{}, counts: map[string]int{}}
+}
+
+func (k *collector) fail(f *failure) {
+	k.mu.Lock()
+	defer k.mu.Unlock()
+	k.counts[f.group]++
+	if old, ok := k.fails[f.group]; !ok || f.rank < old.rank {
+		k.fails[f.group] = f
+	}
+}
+
+func (k *collector) discard(note string) {
+	k.mu.Lock()
+	defer k.mu.Unlock()
+	k.discards++
+	if len(k.discNote) < 8 {
+		k.discNote = append(k.discNote, note)
+	}
+}
+
+func (k *collector) flush(c *core.Ctx) {
+	k.mu.Lock()
+	defer k.mu.Unlock()
+	gs := make([]string, 0, len(k.fails))
+	for g := range k.fails {
+		gs = append(gs, g)
+	}
+	sort.Strings(gs)
+	for _, g := range gs {
+		f := k.fails[g]
+		sum := f.summary
+		if n := k.counts[g]; n > 1 {
+			sum += fmt.Sprintf(" (%d scenarios of this group differ)", n)
+		}
+		c.Report(core.Case{Keys: f.keys, Summary: sum, Files: f.files})
+	}
+	c.Add("spec_guard_discards", k.discards)
+	if k.discards > 0 {
+		fmt.Printf("note: %d scenarios discarded because the guard disagrees with the specification\n", k.discards)
+		for _, n := range k.discNote {
+			fmt.Printf("  discard: %s\n", n)
+		}
+	}
+	k.fails = map[string]*failure{}
+	k.counts = map[string]int{}
+	k.discards = 0
+	k.discNote = nil
+}
+
+// decodeLines reads a file written by CSVWrite("%1$s", <<ToJson(x)>>, f): every
+// line is a JSON string holding JSON.
+func decodeLines(path string, each func(inner []byte) error) error {
+	return tlcx.ReadNDJSON(path, func(raw json.RawMessage) error {
+		var inner string
+		if err := json.Unmarshal(raw, &inner); err != nil {
+			return fmt.Errorf("%s: %v (line %.80q)", path, err, string(raw))
+		}
+		return each([]byte(inner))
+	})
+}
+
+var verbose = os.Getenv("VERIF_VERBOSE") != ""
+
+func vlogf(format string, a ...any) {
+	if verbose {
+		fmt.Fprintf(os.Stderr, "[C13] "+format+"\n", a...)
+	}
+}
+
+// only restricts the run to some parts (development aid): VERIF_C13_PARTS=sync,atomic,bits,float,diff
+func partEnabled(p string) bool {
+	s := os.Getenv("VERIF_C13_PARTS")
+	if s == "" {
+		return true
+	}
+	for _, x := range strings.Split(s, ",") {
+		if x == p {
+			return true
+		}
+	}
+	return false
+}
+
+// Run is the C13 check.
+func Run(c *core.Ctx, pool *gjs.Pool) {
+	c.Assumef("a step on which package sync blocks or aborts the process (fatal error) has no effect in the replacement beyond its panic: the rest of the history is compared with sync run without that step")
+	c.Assumef("sync.Pool is specified by its documented contract (Get returns any value put before and not handed out since, or New(), or nil); iteration order of Map.Range is unspecified")
+	c.Assumef("sync/atomic And*/Or* (added in Go 1.23) have no GopherJS implementation in this tree (it targets Go 1.20) and are not part of the alphabet")
+	c.Assumef("math: only results that are exactly representable on the dyadic grid of FloatGrid.tla are decided; transcendental functions, unicode tables and random bit patterns are compared with native Go by differential sampling outside the specification and only the property's listed function classes are judged there")
+	c.Set("checker_cmd", "tlc SyncPrimsScen (9 invariants + Emit); tlc AtomicScen; tlc BitsValidate; tlc BitsFnScen; tlc FloatGridScen")
+	c.Set("rule", "TLC enumerates every history of the configured length over each primitive's operation alphabet (sync, atomic) and every argument tuple over the boundary grids (math/bits, math); a case is one history / one call; distinct = distinct (configuration, history) or (function, arguments); non-trivial = every case (each executes at least one replaced function)")
+	exhaustive := true
+	if partEnabled("sync") {
+		if !runSync(c, pool) {
+			exhaustive = false
+		}
+		c.Phase("sync")
+	}
+	if partEnabled("atomic") {
+		if !runAtomic(c, pool) {
+			exhaustive = false
+		}
+		c.Phase("atomic")
+	}
+	if partEnabled("bits") {
+		if !runBitsFn(c, pool) {
+			exhaustive = false
+		}
+		c.Phase("bits")
+	}
+	if partEnabled("float") {
+		if !runFloat(c, pool) {
+			exhaustive = false
+		}
+		c.Phase("float")
+	}
+	if partEnabled("diff") {
+		runDiff(c, pool)
+		c.Phase("diff")
+	}
+	c.Set("exhaustive", exhaustive && os.Getenv("VERIF_C13_PARTS") == "")
+}
